@@ -552,6 +552,10 @@ func convoScript(r *rand.Rand, counts [5]int, tailClass int) *peer.Script {
 	}
 	c.Sst = int32(1 + r.Intn(4))
 	c.Sd = rhexs(r, 3)
+	if convoScripts%3 == 1 {
+		// reserved and boundary slice differentiators, in both letter cases: the configured value is what goes on the wire
+		c.Sd = []string{"ffffff", "FFFFFF", "000000", "fffffe", "FfFfFf", "0000ff"}[(convoScripts/3)%6]
+	}
 	c.UeNumber = counts[0]
 	c.UeRegistration, c.UePdu, c.UeService, c.UePduRelease, c.UeDeregistration = counts[0], counts[1], counts[2], counts[3], counts[4]
 	s.Amf = peer.AmfParams{Name: "amf-" + rdigits(r, 3), Region: uint8(r.Intn(256)), SetID: uint16(r.Intn(1024)), Pointer: uint8(r.Intn(64)),
